@@ -161,10 +161,17 @@ def proof_stage(pid: str, extra_modules: list[str] | None = None) -> dict:
                 failures.append(f"theorem {n} depends on non-standard axioms {bad}")
             else:
                 discharged += 1
+    recheck = None
+    if os.environ.get("VERIF_TIER") == "thorough":
+        # independent re-check of the compiled property module (and everything it imports) by Lean's external checker
+        q = subprocess.run(["lake", "env", "leanchecker", f"LithiumProps.{pid}"], cwd=LEAN_DIR, capture_output=True, text=True, timeout=3000)
+        recheck = "accepted" if q.returncode == 0 else "REJECTED"
+        if q.returncode != 0:
+            failures.append(f"leanchecker rejected LithiumProps.{pid}: {(q.stdout + q.stderr)[-300:]}")
     if failures and discharged == len(names):
         discharged = len(names) - 1
     return dict(obligations=len(names), discharged=discharged, failures=failures,
-                log=out[-2000:] if failures else "", axioms=axioms)
+                log=out[-2000:] if failures else "", axioms=axioms, leanchecker=recheck)
 
 
 class Model:
@@ -284,7 +291,7 @@ def write_evidence(ctx: Ctx, proof: dict, rule: str, extra: dict | None = None, 
     cov = dict(
         obligations=proof["obligations"],
         discharged=proof["discharged"],
-        checker_cmd=checker_cmd or f"cd lean && lake build && lake env lean --stdin <<< 'import LithiumProps.{ctx.pid}; #print axioms <each theorem>'",
+        checker_cmd=checker_cmd or f"cd lean && lake build LithiumProps.{ctx.pid} driver && lake env lean --stdin <<< 'import LithiumProps.{ctx.pid}; #print axioms <each theorem>'",
         trusted_base=TRUSTED_BASE + (assumptions or []),
         theorems=proof.get("axioms", {}),
         evaluations=ctx.evaluations,
@@ -298,6 +305,8 @@ def write_evidence(ctx: Ctx, proof: dict, rule: str, extra: dict | None = None, 
         exhaustive_spaces=ctx.exhaustive,
         notes=ctx.notes,
     )
+    if proof.get("leanchecker"):
+        cov["leanchecker"] = f"lake env leanchecker LithiumProps.{ctx.pid}: {proof['leanchecker']}"
     if extra:
         cov.update(extra)
     ev = dict(property_id=ctx.pid, tier=ctx.tier, seed=ctx.seed, level="proof", coverage=cov,
